@@ -6,6 +6,9 @@ import (
 	"reflect"
 	"strings"
 
+	"go.mongodb.org/mongo-driver/bson"
+	"go.mongodb.org/mongo-driver/bson/primitive"
+
 	"github.com/256dpi/lungo/bsonkit"
 )
 
@@ -57,6 +60,31 @@ func validateReplacement(doc bsonkit.Doc) error {
 		return fmt.Errorf("replacement document cannot contain keys beginning with '$'")
 	}
 	return nil
+}
+
+// detachValue returns a copy of a stored value that can be handed out to the
+// caller: documents, arrays and binary data are not shared with the catalog.
+func detachValue(v interface{}) interface{} {
+	// copy composite values by transforming a wrapping document
+	switch v.(type) {
+	case bson.D, bson.A, primitive.Binary:
+		doc, err := bsonkit.Transform(bson.D{{Key: "v", Value: v}})
+		if err != nil {
+			panic(err)
+		}
+		return (*doc)[0].Value
+	}
+
+	return v
+}
+
+// detachValues returns a list with copies of the stored values.
+func detachValues(list bson.A) bson.A {
+	res := make(bson.A, len(list))
+	for i, v := range list {
+		res[i] = detachValue(v)
+	}
+	return res
 }
 
 func useTransaction(ctx context.Context, engine *Engine, lock bool, fn func(*Transaction) (interface{}, error)) (interface{}, error) {
